@@ -169,6 +169,10 @@ inductive Stmt
   | call (fn : Fn) (args : List (V × V)) (rets : List (V × V))
       -- `args`: (parameter, caller variable) — an unbound caller variable is Python's `None`: the parameter stays unbound;
       -- `rets`: (caller variable, callee variable) bound after the body has run
+  | callWin (args : List (V × V)) (dst : V)
+      -- `dst = self._apply_on_window(…)` of ISIMIP.  The window function is checked separately, for every one of its
+      -- settings branches (`Cfg.isimipWindow`), under the contract "its three arguments are buffers the library owns";
+      -- the call site must establish the contract
   deriving Repr
 
 /-- how the debiaser is entered -/
@@ -198,16 +202,25 @@ inductive Cfg
   | qdm (e : Entry) (w yr censor : Bool)
   | sdm (e : Entry) (w relative : Bool)
   | dc (e : Entry) (w : Bool)
-  | isimip (e : Entry) (w scale impute detrending lower upper within : Bool) (trend : Trend)
+  | isimip (e : Entry) (w scale : Bool)       -- ISIMIP.apply_location: window / month mode, steps 1 and 8
+  | isimipWindow (impute detrending lower upper within : Bool) (trend : Trend)
+      -- ISIMIP._apply_on_window (steps 2–7) entered with three buffers the library owns
   deriving DecidableEq, Repr
+
+/-- the configurations under which `Stmt.callWin` may run its callee -/
+def Cfg.isInner : Cfg → Bool
+  | .isimipWindow .. => true
+  | _ => false
 
 def Cfg.entry : Cfg → Entry
   | .ls e _ | .qm e _ _ _ | .ecdfm e _ | .cdft e _ _ _ _ | .qdm e _ _ _ | .sdm e _ _ | .dc e _ => e
-  | .isimip e _ _ _ _ _ _ _ _ => e
+  | .isimip e _ _ => e
+  | .isimipWindow .. => .applyLocation false
 
 def Cfg.window : Cfg → Bool
   | .ls _ w | .qm _ w _ _ | .ecdfm _ w | .cdft _ w _ _ _ | .qdm _ w _ _ | .sdm _ w _ | .dc _ w => w
-  | .isimip _ w _ _ _ _ _ _ _ => w
+  | .isimip _ w _ => w
+  | .isimipWindow .. => false
 
 def Cfg.applyFn : Cfg → Fn
   | .dc _ _ => .applyDC
@@ -220,7 +233,7 @@ def Cfg.applyLocationFn : Cfg → Fn
 
 def Cfg.aowFn : Cfg → Fn
   | .ls .. => .aowLS | .qm .. => .aowQM | .ecdfm .. => .aowECDFM | .cdft .. => .aowCDFt | .qdm .. => .aowQDM
-  | .sdm .. => .aowSDM | .dc .. => .dcWithin | .isimip .. => .isiAow
+  | .sdm .. => .aowSDM | .dc .. => .dcWithin | .isimip .. => .isiAow | .isimipWindow .. => .isiAow
 
 open Stmt V NpOp
 
@@ -336,7 +349,7 @@ def body (c : Cfg) : Fn → List Stmt
   -- ISIMIP
   | .applyLocationISIMIP =>
       (match c with
-       | .isimip _ w scale _ _ _ _ _ _ =>
+       | .isimip _ w scale =>
            inferTimes c ++
            [fresh yearsObs libCall [timeObs], fresh yearsCmHist libCall [timeCmHist], fresh yearsCmFuture libCall [timeCmFuture],
             call .step1 ([(obsHist, obs), (cmHist, cmHist), (cmFuture, cmFuture), (timeObsHist, timeObs),
@@ -351,7 +364,7 @@ def body (c : Cfg) : Fn → List Stmt
             else
               [fresh wObs boolIndex [obs], fresh wHist boolIndex [cmHist], fresh wFut boolIndex [cmFuture],
                fresh wYObs boolIndex [yearsObs], fresh wYHist boolIndex [yearsCmHist], fresh wYFut boolIndex [yearsCmFuture]]) ++
-           [call .isiAow [(obsHist, wObs), (cmHist, wHist), (cmFuture, wFut)] [(res, ret)]] ++
+           [callWin [(obsHist, wObs), (cmHist, wHist), (cmFuture, wFut)] res] ++
            onIf w [call .uniqueMask [] [(mask, ret)], fresh res2 boolIndex [res]] ++
            [store debiasedCmFuture,
             call .step8 [(cmFuture, debiasedCmFuture), (debiasedAnnualCycle, debiasedAnnualCycle), (timeCmFuture, timeCmFuture)]
@@ -360,7 +373,7 @@ def body (c : Cfg) : Fn → List Stmt
        | _ => [])
   | .step1 =>
       (match c with
-       | .isimip _ _ true _ _ _ _ _ _ =>
+       | .isimip _ _ true =>
            [fresh obsHist arith [obsHist, timeObsHist], fresh cmHist arith [cmHist, timeCmHist],
             fresh cmFuture arith [cmFuture, timeCmFuture], call .step1Debiased [] [(debiasedAnnualCycle, ret)]]
        | _ => [])
@@ -376,7 +389,7 @@ def body (c : Cfg) : Fn → List Stmt
        alias ret cmFuture name]
   | .step2 =>
       (match c with
-       | .isimip _ _ _ true _ _ _ _ _ =>
+       | .isimipWindow true _ _ _ _ _ =>
            [call .step2Impute [(x, obsHist)] [(obsHist, ret)], call .step2Impute [(x, cmHist)] [(cmHist, ret)],
             call .step2Impute [(x, cmFuture)] [(cmFuture, ret)]]
        | _ => [])
@@ -384,14 +397,14 @@ def body (c : Cfg) : Fn → List Stmt
   | .step3 =>
       [fresh trendCmFuture zerosLike [cmFuture]] ++
       (match c with
-       | .isimip _ _ _ _ true _ _ _ _ =>
+       | .isimipWindow _ true _ _ _ _ =>
            [call .step3Remove [(x, obsHist)] [(obsHist, ret)], call .step3Remove [(x, cmHist)] [(cmHist, ret)],
             call .step3Remove [(x, cmFuture)] [(cmFuture, ret), (trendCmFuture, ret2)]]
        | _ => [])
   | .step3Remove => [fresh trend zerosLike [x], store trend, fresh ret arith [x, trend], alias ret2 trend name]
   | .step4 =>
       (match c with
-       | .isimip _ _ _ _ _ lower upper _ _ =>
+       | .isimipWindow _ _ lower upper _ _ =>
            onIf lower [call .step4Lower [(vals, obsHist)] [(obsHist, ret)], call .step4Lower [(vals, cmHist)] [(cmHist, ret)],
                        call .step4Lower [(vals, cmFuture)] [(cmFuture, ret)]] ++
            onIf upper [call .step4Upper [(vals, obsHist)] [(obsHist, ret)], call .step4Upper [(vals, cmHist)] [(cmHist, ret)],
@@ -401,16 +414,16 @@ def body (c : Cfg) : Fn → List Stmt
   | .step4Upper => [store vals, alias ret vals name]
   | .step5 =>
       (match c with
-       | .isimip _ _ _ _ _ _ _ true _ =>
+       | .isimipWindow _ _ _ _ true _ =>
            [fresh obsFuture copy [obsHist], fresh t1 boolIndex [obsHist], fresh t2 boolIndex [cmHist], fresh t3 boolIndex [cmFuture],
             call .step5Transfer [(obsHist, t1), (cmHist, t2), (cmFuture, t3)] [(res, ret)],
             store obsFuture, alias ret obsFuture name]
        | _ => [call .step5Transfer [(obsHist, obsHist), (cmHist, cmHist), (cmFuture, cmFuture)] [(ret, ret)]])
   | .step5Transfer =>
       (match c with
-       | .isimip _ _ _ _ _ _ _ _ .mixed =>
+       | .isimipWindow _ _ _ _ _ .mixed =>
            [fresh gamma zerosLike [obsHist], store gamma, store gamma, fresh ret arith [gamma, obsHist, cmHist, cmFuture]]
-       | .isimip _ _ _ _ _ _ _ _ .bounded =>
+       | .isimipWindow _ _ _ _ _ .bounded =>
            [fresh returnVals emptyLike [], call .markUnassigned [(x, returnVals)] [],
             store returnVals, store returnVals, store returnVals, store returnVals,
             fresh returnVals arith [returnVals], alias ret returnVals name]
@@ -424,42 +437,52 @@ def body (c : Cfg) : Fn → List Stmt
   | .step6MaskUpper => [fresh mask zerosLike [], store mask, alias ret mask name]
   | .step7 =>
       (match c with
-       | .isimip _ _ _ _ true _ _ _ _ => [fresh ret arith [cmFuture, trendCmFuture]]
+       | .isimipWindow _ true _ _ _ _ => [fresh ret arith [cmFuture, trendCmFuture]]
        | _ => [alias ret cmFuture name])
   | .step8 =>
       (match c with
-       | .isimip _ _ true _ _ _ _ _ _ => [fresh ret arith [cmFuture, debiasedAnnualCycle, timeCmFuture]]
+       | .isimip _ _ true => [fresh ret arith [cmFuture, debiasedAnnualCycle, timeCmFuture]]
        | _ => [alias ret cmFuture name])
 
 /-- the call a user makes -/
+def windowParams : List (V × V) := [(obsHist, obsHist), (cmHist, cmHist), (cmFuture, cmFuture)]
+
 def entryProg (c : Cfg) : List Stmt :=
-  match c.entry with
-  | .applyLocation _ => [call c.applyLocationFn (dataArgs ++ timeArgs) [(result, ret)]]
-  | .apply _ _ => [call c.applyFn (dataArgs ++ timeArgs) [(result, ret)]]
+  match c with
+  | .isimipWindow .. => [call .isiAow windowParams [(result, ret)]]
+  | _ => match c.entry with
+    | .applyLocation _ => [call c.applyLocationFn (dataArgs ++ timeArgs) [(result, ret)]]
+    | .apply _ _ => [call c.applyFn (dataArgs ++ timeArgs) [(result, ret)]]
 
 /-! ## abstract interpretation: provenance of every name, refusing stores into caller buffers -/
 
-abbrev AEnv := List (V × Prov)
+/-- environments are keyed by the constructor index of the variable (cheap to compare in the kernel) -/
+abbrev AEnv := List (Nat × Prov)
 
-def alook : AEnv → V → Option Prov
+def alookN : AEnv → Nat → Option Prov
   | [], _ => none
-  | (k, p) :: t, v => if k = v then some p else alook t v
+  | (k, p) :: t, v => cond (Nat.beq k v) (some p) (alookN t v)
+
+def alook (e : AEnv) (v : V) : Option Prov := alookN e v.ctorIdx
 
 /-- parameters bound to the provenance of the caller's variables; an unbound variable (`None`) binds nothing -/
 def abindArgs (e : AEnv) : List (V × V) → AEnv
   | [] => []
   | (p, a) :: t => match alook e a with
-      | some pr => (p, pr) :: abindArgs e t
+      | some pr => (p.ctorIdx, pr) :: abindArgs e t
       | none => abindArgs e t
 
 /-- bind the returned names in the caller's environment; a returned name that the callee never bound is an error -/
 def abindRets (callee e : AEnv) : List (V × V) → Option AEnv
   | [] => some e
   | (d, r) :: t => match alook callee r with
-      | some pr => abindRets callee ((d, pr) :: e) t
+      | some pr => abindRets callee ((d.ctorIdx, pr) :: e) t
       | none => none
 
 def allBound (e : AEnv) (l : List V) : Bool := l.all (fun v => (alook e v).isSome)
+
+/-- the contract of `Stmt.callWin`: exactly the three data parameters, each bound to a buffer the library owns -/
+def contractEnv : AEnv := [(obsHist.ctorIdx, .own), (cmHist.ctorIdx, .own), (cmFuture.ctorIdx, .own)]
 
 /-- `check c fuel prog env`: the environment after the program, or `none` if a name is unbound, the fuel runs out,
     or — the point — a `store` targets a buffer whose provenance is not `own`. -/
@@ -467,9 +490,9 @@ def check (c : Cfg) : Nat → List Stmt → AEnv → Option AEnv
   | 0, _, _ => none
   | _ + 1, [], e => some e
   | f + 1, .alias d s _ :: r, e => match alook e s with
-      | some p => check c f r ((d, p) :: e)
+      | some p => check c f r ((d.ctorIdx, p) :: e)
       | none => none
-  | f + 1, .fresh d _ srcs :: r, e => if allBound e srcs then check c f r ((d, .own) :: e) else none
+  | f + 1, .fresh d _ srcs :: r, e => if allBound e srcs then check c f r ((d.ctorIdx, .own) :: e) else none
   | f + 1, .store t :: r, e => match alook e t with
       | some .own => check c f r e
       | _ => none
@@ -478,22 +501,39 @@ def check (c : Cfg) : Nat → List Stmt → AEnv → Option AEnv
           | some e'' => check c f r e''
           | none => none)
       | none => none
+  | f + 1, .callWin args d :: r, e =>
+      if abindArgs e args = contractEnv then check c f r ((d.ctorIdx, .own) :: e) else none
 
 /-- the caller's six arrays (the time arrays only when given) -/
-def initEnvOf (times : Bool) : List (V × Nat) :=
-  [(obs, 0), (cmHist, 1), (cmFuture, 2)] ++ (if times then [(timeObs, 3), (timeCmHist, 4), (timeCmFuture, 5)] else [])
+def initEnvOf (times : Bool) : List (Nat × Nat) :=
+  [(obs.ctorIdx, 0), (cmHist.ctorIdx, 1), (cmFuture.ctorIdx, 2)] ++
+  (if times then [(timeObs.ctorIdx, 3), (timeCmHist.ctorIdx, 4), (timeCmFuture.ctorIdx, 5)] else [])
 
-def absEnv (env : List (V × Nat)) : AEnv := env.map (fun vb => (vb.1, provOf vb.2))
+/-- the window function is entered with three buffers that are not the caller's (ids 6, 7, 8) -/
+def windowEnv : List (Nat × Nat) := [(obsHist.ctorIdx, 6), (cmHist.ctorIdx, 7), (cmFuture.ctorIdx, 8)]
+
+def Cfg.initEnv : Cfg → List (Nat × Nat)
+  | .isimipWindow .. => windowEnv
+  | c => initEnvOf c.entry.times
+
+def absEnv (env : List (Nat × Nat)) : AEnv := env.map (fun vb => (vb.1, provOf vb.2))
 
 abbrev fuel : Nat := 400
 
 /-- every store of the configuration goes to a buffer the library allocated itself -/
-def safe (c : Cfg) : Bool := (check c fuel (entryProg c) (absEnv (initEnvOf c.entry.times))).isSome
+def safe (c : Cfg) : Bool := (check c fuel (entryProg c) (absEnv c.initEnv)).isSome
 
 /-- … and the array handed back to the user is a fresh one as well -/
 def resultOwn (c : Cfg) : Bool :=
-  match check c fuel (entryProg c) (absEnv (initEnvOf c.entry.times)) with
+  match check c fuel (entryProg c) (absEnv c.initEnv) with
   | some e => alook e result == some .own
+  | none => false
+
+/-- the guarantee side of the `callWin` contract: from three own buffers the window function stores only into own
+    buffers and returns an own buffer -/
+def contractOk (ci : Cfg) : Bool :=
+  match check ci fuel (body ci .isiAow) contractEnv with
+  | some e => alook e ret == some .own
   | none => false
 
 /-! ### the provenance table (what tier B compares with `np.shares_memory` at the entry of each function) -/
@@ -515,9 +555,9 @@ def trace (c : Cfg) : Nat → List Stmt → AEnv → Option (AEnv × List TraceI
   | 0, _, _ => none
   | _ + 1, [], e => some (e, [])
   | f + 1, .alias d s _ :: r, e => match alook e s with
-      | some p => trace c f r ((d, p) :: e)
+      | some p => trace c f r ((d.ctorIdx, p) :: e)
       | none => none
-  | f + 1, .fresh d _ _ :: r, e => trace c f r ((d, .own) :: e)
+  | f + 1, .fresh d _ _ :: r, e => trace c f r ((d.ctorIdx, .own) :: e)
   | f + 1, .store _ :: r, e => trace c f r e
   | f + 1, .call fn args rets :: r, e => match trace c f (body c fn) (abindArgs e args) with
       | some (e', tr1) => (match abindRets e' e rets with
@@ -526,41 +566,52 @@ def trace (c : Cfg) : Nat → List Stmt → AEnv → Option (AEnv × List TraceI
               | none => none)
           | none => none)
       | none => none
+  | f + 1, .callWin args d :: r, e => match trace c f r ((d.ctorIdx, .own) :: e) with
+      | some (e3, tr2) => some (e3, traceArgs .isiAow e args ++ tr2)
+      | none => none
 
 /-! ## concrete semantics: a heap of buffers, names bound to buffer ids -/
 
+abbrev CEnv := List (Nat × Nat)
+
 structure St (α : Type) where
-  env : List (V × Nat)
+  env : CEnv
   heap : List (List α)
 
-def clook : List (V × Nat) → V → Option Nat
+def clookN : CEnv → Nat → Option Nat
   | [], _ => none
-  | (k, b) :: t, v => if k = v then some b else clook t v
+  | (k, b) :: t, v => cond (Nat.beq k v) (some b) (clookN t v)
 
-def cbindArgs (e : List (V × Nat)) : List (V × V) → List (V × Nat)
+def clook (e : CEnv) (v : V) : Option Nat := clookN e v.ctorIdx
+
+def cbindArgs (e : CEnv) : List (V × V) → CEnv
   | [] => []
   | (p, a) :: t => match clook e a with
-      | some b => (p, b) :: cbindArgs e t
+      | some b => (p.ctorIdx, b) :: cbindArgs e t
       | none => cbindArgs e t
 
-def cbindRets (callee e : List (V × Nat)) : List (V × V) → Option (List (V × Nat))
+def cbindRets (callee e : CEnv) : List (V × V) → Option CEnv
   | [] => some e
   | (d, r) :: t => match clook callee r with
-      | some b => cbindRets callee ((d, b) :: e) t
+      | some b => cbindRets callee ((d.ctorIdx, b) :: e) t
       | none => none
 
 /-- big-step execution.  What is written (`v`) is arbitrary: the theorems hold for every content. -/
-inductive Exec {α : Type} (c : Cfg) : List Stmt → St α → St α → Prop
-  | nil (s : St α) : Exec c [] s s
-  | alias {d src op r s t b} : clook s.env src = some b → Exec c r ⟨(d, b) :: s.env, s.heap⟩ t →
+inductive Exec {α : Type} : Cfg → List Stmt → St α → St α → Prop
+  | nil (c : Cfg) (s : St α) : Exec c [] s s
+  | alias {c d src op r s t b} : clook s.env src = some b → Exec c r ⟨(d.ctorIdx, b) :: s.env, s.heap⟩ t →
       Exec c (.alias d src op :: r) s t
-  | fresh {d op srcs r s t} (v : List α) : Exec c r ⟨(d, s.heap.length) :: s.env, s.heap ++ [v]⟩ t →
+  | fresh {c d op srcs r s t} (v : List α) : Exec c r ⟨(d.ctorIdx, s.heap.length) :: s.env, s.heap ++ [v]⟩ t →
       Exec c (.fresh d op srcs :: r) s t
-  | store {tgt r s t b} (v : List α) : clook s.env tgt = some b → Exec c r ⟨s.env, s.heap.set b v⟩ t →
+  | store {c tgt r s t b} (v : List α) : clook s.env tgt = some b → Exec c r ⟨s.env, s.heap.set b v⟩ t →
       Exec c (.store tgt :: r) s t
-  | call {fn args rets r s t0 env1 t} : Exec c (body c fn) ⟨cbindArgs s.env args, s.heap⟩ t0 →
+  | call {c fn args rets r s t0 env1 t} : Exec c (body c fn) ⟨cbindArgs s.env args, s.heap⟩ t0 →
       cbindRets t0.env s.env rets = some env1 → Exec c r ⟨env1, t0.heap⟩ t →
       Exec c (.call fn args rets :: r) s t
+  | callWin {c ci args d r s t0 b t} : ci.isInner = true →
+      Exec ci (body ci .isiAow) ⟨cbindArgs s.env args, s.heap⟩ t0 → clook t0.env ret = some b →
+      Exec c r ⟨(d.ctorIdx, b) :: s.env, t0.heap⟩ t →
+      Exec c (.callWin args d :: r) s t
 
 /-! ## the hand-written write-site table: why each target is not one of the caller's buffers -/
 
@@ -579,67 +630,72 @@ private def sdmRelName := "ScaledDistributionMapping._apply_on_window_relative_s
 private def qmce := "quantile_map_non_parametically_with_constant_extrapolation"
 private def s5t := "ISIMIP._step5_transfer_trend"
 
+/-- a site justified by a modelled store: function and variable names are the model's own (`Fn.py`, `V.py`), so
+    the tie `Gen.WriteSites.sites = sites` checks them against the source -/
+private def m (file : String) (fn : Fn) (v : V) (kind : WriteKind) (key : String) (occ : Nat) : WriteSite × Just :=
+  (⟨file, fn.py, v.py, kind, key, occ⟩, .modelled fn v)
+
 def sitesJ : List (WriteSite × Just) := [
   -- result buffer of the year loop: np.empty_like(cm_future)
-  (⟨"ibicus/debias/_cdft.py", "CDFt.apply_on_window", "debiased_cm_future", .subscriptAssign, "debiased_cm_future[mask_years_to_debias]", 1⟩, .modelled .aowCDFt .debiasedCmFuture),
+  m "ibicus/debias/_cdft.py" .aowCDFt .debiasedCmFuture .subscriptAssign "debiased_cm_future[mask_years_to_debias]" 1,
   -- np.empty(output_size)
-  (⟨fDeb, "Debiaser.map_over_locations", "output", .subscriptAssign, "output[:, i, j]", 1⟩, .modelled .mapOverLocations .output),
+  m fDeb .mapOverLocations .output .subscriptAssign "output[:, i, j]" 1,
   (⟨fDeb, "Debiaser.parallel_map_over_locations", "output", .subscriptAssign, "output[:, index[0], index[1]]", 1⟩,
     .notReached "parallel=True is C05's subject; output = np.empty(output_size) is allocated after the pool has returned"),
   -- np.empty_like(obs)
-  (⟨"ibicus/debias/_delta_change.py", "DeltaChange.apply_location", "debiased_cm_future", .subscriptAssign, "debiased_cm_future[indices_bias_corrected_values]", 1⟩, .modelled .applyLocationDC .debiasedCmFuture),
+  m "ibicus/debias/_delta_change.py" .applyLocationDC .debiasedCmFuture .subscriptAssign "debiased_cm_future[indices_bias_corrected_values]" 1,
   -- annual_cycle_cm_future.copy()
-  (⟨fIsi, "ISIMIP._step1_calculate_debiased_annual_cycle_of_upper_bounds", "debiased_annual_cycle", .subscriptAssign, "debiased_annual_cycle[index]", 1⟩, .modelled .step1Debiased .debiasedAnnualCycle),
+  m fIsi .step1Debiased .debiasedAnnualCycle .subscriptAssign "debiased_annual_cycle[index]" 1,
   -- writes into its ARGUMENT; at the only call sites (`step2` from `_apply_on_window`) that is obs[idx] / obs[mask]: a copy
-  (⟨fIsi, "ISIMIP._step2_impute_values", "x", .subscriptAssign, "x[mask_values_to_impute]", 1⟩, .modelled .step2Impute .x),
-  (⟨fIsi, "ISIMIP._step2_impute_values", "x", .subscriptAssign, "x[mask_values_to_impute]", 2⟩, .modelled .step2Impute .x),
+  m fIsi .step2Impute .x .subscriptAssign "x[mask_values_to_impute]" 1,
+  m fIsi .step2Impute .x .subscriptAssign "x[mask_values_to_impute]" 2,
   -- np.zeros_like(x)
-  (⟨fIsi, "ISIMIP._step3_remove_trend", "trend", .subscriptAssign, "trend[years == unique_year]", 1⟩, .modelled .step3Remove .trend),
+  m fIsi .step3Remove .trend .subscriptAssign "trend[years == unique_year]" 1,
   -- write into their ARGUMENT: the window copy, possibly already replaced by step 3's `x - trend`
-  (⟨fIsi, "ISIMIP._step4_randomize_values_between_lower_threshold_and_bound", "vals", .subscriptAssign, "vals[mask_vals_beyond_lower_threshold]", 1⟩, .modelled .step4Lower .vals),
-  (⟨fIsi, "ISIMIP._step4_randomize_values_between_upper_threshold_and_bound", "vals", .subscriptAssign, "vals[mask_vals_beyond_upper_threshold]", 1⟩, .modelled .step4Upper .vals),
+  m fIsi .step4Lower .vals .subscriptAssign "vals[mask_vals_beyond_lower_threshold]" 1,
+  m fIsi .step4Upper .vals .subscriptAssign "vals[mask_vals_beyond_upper_threshold]" 1,
   -- np.zeros_like(obs_hist)
-  (⟨fIsi, s5t, "gamma", .subscriptAssign, "gamma[condition1]", 1⟩, .modelled .step5Transfer .gamma),
-  (⟨fIsi, s5t, "gamma", .subscriptAssign, "gamma[condition2]", 1⟩, .modelled .step5Transfer .gamma),
+  m fIsi .step5Transfer .gamma .subscriptAssign "gamma[condition1]" 1,
+  m fIsi .step5Transfer .gamma .subscriptAssign "gamma[condition2]" 1,
   -- np.empty_like(q_cm_future)
-  (⟨fIsi, s5t, "return_vals", .subscriptAssign, "return_vals[mask_negative_bias]", 1⟩, .modelled .step5Transfer .returnVals),
-  (⟨fIsi, s5t, "return_vals", .subscriptAssign, "return_vals[mask_zero_bias]", 1⟩, .modelled .step5Transfer .returnVals),
-  (⟨fIsi, s5t, "return_vals", .subscriptAssign, "return_vals[mask_positive_bias]", 1⟩, .modelled .step5Transfer .returnVals),
-  (⟨fIsi, s5t, "return_vals", .subscriptAssign, "return_vals[mask_additive_correction]", 1⟩, .modelled .step5Transfer .returnVals),
+  m fIsi .step5Transfer .returnVals .subscriptAssign "return_vals[mask_negative_bias]" 1,
+  m fIsi .step5Transfer .returnVals .subscriptAssign "return_vals[mask_zero_bias]" 1,
+  m fIsi .step5Transfer .returnVals .subscriptAssign "return_vals[mask_positive_bias]" 1,
+  m fIsi .step5Transfer .returnVals .subscriptAssign "return_vals[mask_additive_correction]" 1,
   -- np.zeros_like(cm_future_sorted, dtype=bool)
-  (⟨fIsi, "ISIMIP._step6_get_mask_for_entries_to_set_to_lower_bound", "mask", .subscriptAssign, "mask[0:nr]", 1⟩, .modelled .step6MaskLower .mask),
-  (⟨fIsi, "ISIMIP._step6_get_mask_for_entries_to_set_to_upper_bound", "mask", .subscriptAssign, "mask[cm_future_sorted.size - nr:]", 1⟩, .modelled .step6MaskUpper .mask),
+  m fIsi .step6MaskLower .mask .subscriptAssign "mask[0:nr]" 1,
+  m fIsi .step6MaskUpper .mask .subscriptAssign "mask[cm_future_sorted.size - nr:]" 1,
   -- obs_hist.copy()
-  (⟨fIsi, "ISIMIP.step5", "obs_future", .subscriptAssign, "obs_future[mask_for_values_between_thresholds_obs_hist]", 1⟩, .modelled .step5 .obsFuture),
+  m fIsi .step5 .obsFuture .subscriptAssign "obs_future[mask_for_values_between_thresholds_obs_hist]" 1,
   -- cm_future_sorted.copy()
-  (⟨fIsi, "ISIMIP.step6", "mapped_vals", .subscriptAssign, "mapped_vals[mask_for_entries_to_set_to_lower_bound]", 1⟩, .modelled .step6 .mappedVals),
-  (⟨fIsi, "ISIMIP.step6", "mapped_vals", .subscriptAssign, "mapped_vals[mask_for_entries_to_set_to_upper_bound]", 1⟩, .modelled .step6 .mappedVals),
-  (⟨fIsi, "ISIMIP.step6", "mapped_vals", .subscriptAssign, "mapped_vals[mask_for_entries_not_set_to_either_bound]", 1⟩, .modelled .step6 .mappedVals),
+  m fIsi .step6 .mappedVals .subscriptAssign "mapped_vals[mask_for_entries_to_set_to_lower_bound]" 1,
+  m fIsi .step6 .mappedVals .subscriptAssign "mapped_vals[mask_for_entries_to_set_to_upper_bound]" 1,
+  m fIsi .step6 .mappedVals .subscriptAssign "mapped_vals[mask_for_entries_not_set_to_either_bound]" 1,
   -- np.zeros_like(cm_future) (running-window mode and month mode)
-  (⟨fIsi, "ISIMIP.apply_location", "debiased_cm_future", .subscriptAssign, "debiased_cm_future[indices_bias_corrected_values]", 1⟩, .modelled .applyLocationISIMIP .debiasedCmFuture),
-  (⟨fIsi, "ISIMIP.apply_location", "debiased_cm_future", .subscriptAssign, "debiased_cm_future[mask_i_month_in_cm_future]", 1⟩, .modelled .applyLocationISIMIP .debiasedCmFuture),
+  m fIsi .applyLocationISIMIP .debiasedCmFuture .subscriptAssign "debiased_cm_future[indices_bias_corrected_values]" 1,
+  m fIsi .applyLocationISIMIP .debiasedCmFuture .subscriptAssign "debiased_cm_future[mask_i_month_in_cm_future]" 1,
   -- cm_future ± ppf(…) (arithmetic result)
-  (⟨"ibicus/debias/_quantile_delta_mapping.py", "QuantileDeltaMapping._apply_debiasing_steps", "bias_corrected_vals", .subscriptAssign, "bias_corrected_vals[bias_corrected_vals < self.censoring_threshold]", 1⟩, .modelled .qdmSteps .biasCorrectedVals),
+  m "ibicus/debias/_quantile_delta_mapping.py" .qdmSteps .biasCorrectedVals .subscriptAssign "bias_corrected_vals[bias_corrected_vals < self.censoring_threshold]" 1,
   -- np.empty_like(cm_future)
-  (⟨"ibicus/debias/_quantile_delta_mapping.py", "QuantileDeltaMapping.apply_on_window", "debiased_cm_future", .subscriptAssign, "debiased_cm_future[mask_years_to_debias]", 1⟩, .modelled .aowQDM .debiasedCmFuture),
-  (⟨"ibicus/debias/_running_window_debiaser.py", "RunningWindowDebiaser.apply_location", "debiased_cm_future", .subscriptAssign, "debiased_cm_future[indices_bias_corrected_values]", 1⟩, .modelled .applyLocationRW .debiasedCmFuture),
+  m "ibicus/debias/_quantile_delta_mapping.py" .aowQDM .debiasedCmFuture .subscriptAssign "debiased_cm_future[mask_years_to_debias]" 1,
+  m "ibicus/debias/_running_window_debiaser.py" .applyLocationRW .debiasedCmFuture .subscriptAssign "debiased_cm_future[indices_bias_corrected_values]" 1,
   -- the names obs / cm_hist / cm_future were rebound to np.sort(obs) / np.sort(cm_hist) / cm_future[argsort] first
-  (⟨fSdm, sdmRelName, "obs", .subscriptAssign, "obs[np.logical_not(mask_rainy_days_obs)]", 1⟩, .modelled .sdmRel .obs),
-  (⟨fSdm, sdmRelName, "cm_hist", .subscriptAssign, "cm_hist[np.logical_not(mask_rainy_days_cm_hist)]", 1⟩, .modelled .sdmRel .cmHist),
-  (⟨fSdm, sdmRelName, "cm_future", .subscriptAssign, "cm_future[:cm_future.size - expected_nr_rainy_days_cm_future]", 1⟩, .modelled .sdmRel .cmFuture),
-  (⟨fSdm, sdmRelName, "cm_future", .subscriptAssign, "cm_future[cm_future.size - expected_nr_rainy_days_cm_future:]", 1⟩, .modelled .sdmRel .cmFuture),
+  m fSdm .sdmRel .obs .subscriptAssign "obs[np.logical_not(mask_rainy_days_obs)]" 1,
+  m fSdm .sdmRel .cmHist .subscriptAssign "cm_hist[np.logical_not(mask_rainy_days_cm_hist)]" 1,
+  m fSdm .sdmRel .cmFuture .subscriptAssign "cm_future[:cm_future.size - expected_nr_rainy_days_cm_future]" 1,
+  m fSdm .sdmRel .cmFuture .subscriptAssign "cm_future[cm_future.size - expected_nr_rainy_days_cm_future:]" 1,
   -- pandas helper of the evaluate module (a dict and a DataFrame column)
   (⟨fUtils, "_unpack_df_of_numpy_arrays", "expanded_row", .subscriptAssign, "expanded_row[index]", 1⟩, .notReached "helper of ibicus.evaluate (metrics are not in scope); writes a local dict"),
   (⟨fUtils, "_unpack_df_of_numpy_arrays", "expanded_row", .subscriptAssign, "expanded_row[index]", 2⟩, .notReached "helper of ibicus.evaluate (metrics are not in scope); writes a local dict"),
   (⟨fUtils, "_unpack_df_of_numpy_arrays", "expanded_df", .subscriptAssign, "expanded_df[numpy_column_name]", 1⟩, .notReached "helper of ibicus.evaluate (metrics are not in scope); writes a DataFrame built by pd.concat"),
   -- np.zeros_like(x).astype(bool)
-  (⟨fUtils, "get_mask_for_unique_subarray", "mask", .subscriptAssign, "mask[indices]", 1⟩, .modelled .uniqueMask .mask),
+  m fUtils .uniqueMask .mask .subscriptAssign "mask[indices]" 1,
   (⟨fUtils, "_verif_mark_unassigned", "x", .methodInPlace, "x.fill()", 1⟩, .hook),
   -- iecdf(…) result (np.quantile / fancy-indexed sorted sample)
-  (⟨fMath, qmce, "mapped_vals", .subscriptAssign, "mapped_vals[vals_under]", 1⟩, .modelled .qmConstExtrap .mappedVals),
-  (⟨fMath, qmce, "mapped_vals", .subscriptAssign, "mapped_vals[vals_above]", 1⟩, .modelled .qmConstExtrap .mappedVals),
+  m fMath .qmConstExtrap .mappedVals .subscriptAssign "mapped_vals[vals_under]" 1,
+  m fMath .qmConstExtrap .mappedVals .subscriptAssign "mapped_vals[vals_above]" 1,
   -- np.mod(np.arange(…), 366)
-  (⟨"ibicus/utils/_running_window_mode.py", "RunningWindowOverDaysOfYear.get_indices_vals_in_window", "window_range", .subscriptAssign, "window_range[window_range == 0]", 1⟩, .modelled .idxWindow .windowRange)]
+  m "ibicus/utils/_running_window_mode.py" .idxWindow .windowRange .subscriptAssign "window_range[window_range == 0]" 1]
 
 def sites : List WriteSite := sitesJ.map (·.1)
 
@@ -649,10 +705,9 @@ def storesOf (fn : Fn) : List Stmt → List (Fn × V)
   | .store v :: r => (fn, v) :: storesOf fn r
   | _ :: r => storesOf fn r
 
-/-- a `modelled fn v` justification is backed by the program text: names agree and the store exists in some branch -/
+/-- a `modelled fn v` justification is backed by the program text: the store exists in some branch -/
 def justBacked (witness : List Cfg) : WriteSite × Just → Bool
-  | (s, .modelled fn v) =>
-      fn.py.toList == s.fn.toList && v.py.toList == s.base.toList && witness.any (fun c => (storesOf fn (body c fn)).contains (fn, v))
+  | (_, .modelled fn v) => witness.any (fun c => (storesOf fn (body c fn)).contains (fn, v))
   | (s, .hook) => s.fn.toList == Fn.markUnassigned.py.toList
   | (_, .notReached _) => true
 
